@@ -8,6 +8,9 @@ use vcommon::Recorder;
 
 pub fn unpack(rec: &mut Recorder, c: &HistCase, ex: Exec) -> Result<Option<HistObs>, String> {
     let prop = rec.property.clone();
+    if c.in_teardown && matches!(ex, Exec::Obs(_)) {
+        rec.class("history-inside-tear-down-while-unwinding");
+    }
     match ex {
         Exec::Timeout => {
             rec.count("watchdog", 1);
@@ -279,9 +282,12 @@ pub fn judge_c17(rec: &mut Recorder, c: &HistCase, ex: Exec, _hello: &Value) -> 
         // content of every target as of the previous observation point
         let mut cur: BTreeMap<usize, Vec<u8>> = BTreeMap::new();
         for s in &l.steps {
-            if !s.kind.starts_with("install") || s.panicked.is_some() {
+            if !s.kind.starts_with("install") {
                 continue;
             }
+            // (an installation that was refused half-way is judged like any other: whatever code
+            // it wrote - typically a trampoline it then left behind - was a code modification)
+            let refused = s.panicked.is_some();
             let t = &o.targets[s.t];
             let mut changed = 0;
             for i in 0..s.after.len() {
@@ -297,15 +303,17 @@ pub fn judge_c17(rec: &mut Recorder, c: &HistCase, ex: Exec, _hello: &Value) -> 
                     if *b != 0 {
                         changed += 1;
                         if let Err(m) = flush_covers(&s.log, addr + i as u64, *b) {
-                            return rec.fail(&sig("trampoline-not-flushed"), format!("lifetime {li} {} on {}: {m}; case {c:?}", s.kind, t.name));
+                            return rec.fail(&sig(if refused { "trampoline-not-flushed/installation-refused-after-writing-it" } else { "trampoline-not-flushed" }), format!("lifetime {li} {} on {}{}: {m}; case {c:?}", s.kind, t.name, if refused { format!(" (the installation then panicked: {:?})", s.panicked) } else { String::new() }));
                         }
                     }
                 }
             }
-            cur.insert(s.t, s.after.clone());
+            if !refused || s.after != s.before {
+                cur.insert(s.t, s.after.clone());
+            }
             if changed > 0 {
                 let straddle = (t.addr & 0xFFF) > 0xFFB;
-                rec.class(&format!("{}{}", s.kind, if straddle { "/straddle" } else { "" }));
+                rec.class(&format!("{}{}{}", s.kind, if straddle { "/straddle" } else { "" }, if refused { "/refused-after-writing-code" } else { "" }));
                 rec.nontrivial(&(li, s.t, &s.kind, t.addr, s.tramps.first().map(|x| x.0)));
             }
         }
